@@ -210,7 +210,15 @@ class Corr:
             ok &= cmp_arr(out, phase, "rebProd", post["rebProd"], rp, ref=pre["reb"])
             rb = blocks_to_mat(ans["reb"], N, F)
             ok &= cmp_arr(out, phase, "reb", post["reb"], rb, ref=pre["reb"])
-        ok &= cmp_arr(out, phase, "dTot", post["dTot"], unqarr(ans["dTot"]))
+        # (the total after the phase is a difference — demand minus what was delivered —: its rounding residue is relative to
+        #  the totals before the phase, not to itself)
+        ref_tot = np.abs(np.asarray(pre["dTot"], dtype=float).ravel())
+        if nE > 0 and pre.get("reb") is not None:
+            try:
+                ref_tot = ref_tot + np.abs(np.asarray(pre["reb"], dtype=float)).sum(axis=1).ravel()
+            except Exception:
+                pass
+        ok &= cmp_arr(out, phase, "dTot", post["dTot"], unqarr(ans["dTot"]), ref=ref_tot)
         return ok
 
     def distribute(self, ph) -> list:
